@@ -53,6 +53,19 @@ func (c *verifC14Coordinator) syncGroup(req syncGroupRequestV0) (syncGroupRespon
 	return syncGroupResponseV0{MemberAssignments: c.answer}, nil
 }
 
+// offsetFetch answers "nothing committed" (-1) for every requested partition.
+func (c *verifC14Coordinator) offsetFetch(req offsetFetchRequestV1) (offsetFetchResponseV1, error) {
+	var resp offsetFetchResponseV1
+	for _, t := range req.Topics {
+		r := offsetFetchResponseV1Response{Topic: t.Topic}
+		for _, p := range t.Partitions {
+			r.PartitionResponses = append(r.PartitionResponses, offsetFetchResponseV1PartitionResponse{Partition: p, Offset: -1})
+		}
+		resp.Responses = append(resp.Responses, r)
+	}
+	return resp, nil
+}
+
 func verifC14Balancer(protocol, rack string) (GroupBalancer, error) {
 	switch protocol {
 	case "range":
@@ -71,31 +84,38 @@ func verifC14Balancer(protocol, rack string) (GroupBalancer, error) {
 // assignment per member); every other member runs the real syncGroup on the bytes listed under its id.
 // Returns what each member receives and what the balancer computed on the leader.
 func VerifC14LeaderRound(protocol string, members []VerifC14Member, parts []Partition) (received map[string]map[string][]int32, computed GroupMemberAssignments, err error) {
+	received, _, computed, err = VerifC14Round(protocol, members, parts)
+	return
+}
+
+// VerifC14Round is VerifC14LeaderRound followed, for every member, by the rest of nextGeneration's data path:
+// fetchOffsets (nothing committed) and makeAssignments; `final` is Generation.Assignments per member as partition ids.
+func VerifC14Round(protocol string, members []VerifC14Member, parts []Partition) (received map[string]map[string][]int32, final map[string]map[string][]int, computed GroupMemberAssignments, err error) {
 	if len(members) == 0 {
-		return nil, nil, fmt.Errorf("no members")
+		return nil, nil, nil, fmt.Errorf("no members")
 	}
 	cgs := make([]*ConsumerGroup, len(members))
 	join := joinGroupResponse{GenerationID: 1, GroupProtocol: protocol, LeaderID: members[0].ID, MemberID: members[0].ID}
 	for i, m := range members {
 		b, err := verifC14Balancer(protocol, m.Rack)
 		if err != nil {
-			return nil, nil, err
+			return nil, nil, nil, err
 		}
 		cgs[i] = &ConsumerGroup{config: ConsumerGroupConfig{ID: "g", Topics: m.Topics, GroupBalancers: []GroupBalancer{b}}}
 		req, err := cgs[i].makeJoinGroupRequest("")
 		if err != nil || len(req.GroupProtocols) != 1 {
-			return nil, nil, fmt.Errorf("makeJoinGroupRequest: %v", err)
+			return nil, nil, nil, fmt.Errorf("makeJoinGroupRequest: %v", err)
 		}
 		join.Members = append(join.Members, joinGroupResponseMember{MemberID: m.ID, MemberMetadata: req.GroupProtocols[0].ProtocolMetadata})
 	}
 	leader := &verifC14Coordinator{join: join, parts: parts}
 	memberID, generationID, computed, err := cgs[0].joinGroup(leader, "")
 	if err != nil {
-		return nil, nil, err
+		return nil, nil, nil, err
 	}
 	// the leader's SyncGroup: first only to capture the request, then again answered with its own bytes
 	if _, err := cgs[0].syncGroup(leader, memberID, generationID, computed); err != nil {
-		return nil, computed, err
+		return nil, nil, computed, err
 	}
 	req := leader.lastSync
 	listed := func(id string) []byte {
@@ -108,6 +128,7 @@ func VerifC14LeaderRound(protocol string, members []VerifC14Member, parts []Part
 		return b
 	}
 	received = map[string]map[string][]int32{}
+	final = map[string]map[string][]int{}
 	for i, m := range members {
 		conn := &verifC14Coordinator{answer: listed(m.ID)}
 		var assign GroupMemberAssignments
@@ -116,11 +137,24 @@ func VerifC14LeaderRound(protocol string, members []VerifC14Member, parts []Part
 		}
 		got, err := cgs[i].syncGroup(conn, m.ID, generationID, assign)
 		if err != nil {
-			return nil, computed, err
+			return nil, nil, computed, err
 		}
 		received[m.ID] = got
+		offsets, err := cgs[i].fetchOffsets(conn, got)
+		if err != nil {
+			return nil, nil, computed, err
+		}
+		view := map[string][]int{}
+		for t, pas := range cgs[i].makeAssignments(got, offsets) {
+			ids := make([]int, len(pas))
+			for j, pa := range pas {
+				ids[j] = pa.ID
+			}
+			view[t] = ids
+		}
+		final[m.ID] = view
 	}
-	return received, computed, nil
+	return received, final, computed, nil
 }
 
 // VerifC14AssignmentBytes is groupAssignment{Version: 1, Topics: topics}.bytes(), what makeSyncGroupRequestV0 lists
